@@ -754,15 +754,29 @@ def checker():
     return _CHECKER
 
 
-def smallest_first(limit_n=5):
+def smallest_first(limit_n=6, limit_sum=11):
     """the "orb" representatives in order of total size (used to replay site-keyed findings)"""
-    sp = [(n1, n2) for n1 in range(1, limit_n + 1) for n2 in range(1, limit_n + 1)]
+    sp = [(n1, n2) for n1 in range(1, limit_n + 1) for n2 in range(1, limit_n + 1) if n1 + n2 <= limit_sum]
     sp.sort(key=lambda x: (x[0] + x[1], x[0]))
     for n1, n2 in sp:
         for s1 in skeletons(n1):
             for s2 in skeletons(n2):
                 for t1, t2 in pairs_of("orb", s1, s2):
                     yield t1, t2
+
+
+def has_repeated_variable(t1, t2):
+    seen = set()
+    stack = [t1, t2]
+    while stack:
+        t = stack.pop()
+        if type(t) is tuple:
+            stack.extend(t[1:])
+        elif R.is_var(t):
+            if t in seen:
+                return True
+            seen.add(t)
+    return False
 
 
 class C14(Prop):
@@ -788,7 +802,7 @@ class C14(Prop):
         "sizes only (orb); it is exercised exhaustively on the smaller sizes (rot, full)",
         "a quoted atom that needs no quotes is the same atom as the unquoted one; '1' is an atom, not the integer 1",
     ]
-    budget = {"quick": 150, "thorough": 1500}
+    budget = {"quick": 300, "thorough": 1500}
 
     def precheck(self, tier):
         return validate_reference()
@@ -853,7 +867,7 @@ class C14(Prop):
         text = what_text(small["way"], t1, t2)
         if is_site_symptom(sym):
             # keyed by call site alone; the minimal example goes to the record, not to the key
-            key_case = dict(way=small["way"], site=sym.split(":", 1)[1])
+            key_case = dict(way=small["way"], kind=sym.split(":", 1)[0], site=sym.split(":", 1)[1])
             acc.violation(sym, key_case, expected=j["expected"], observed="e.g. %s %s" % (text, j["observed"]),
                           what="%s: %s" % (text, j["observed"]))
         else:
@@ -863,16 +877,31 @@ class C14(Prop):
     def replay(self, case):
         ck = Checker()
         if "site" in case:
+            # keyed by call site: search the smallest pair (orbit representatives, smallest total size
+            # first, at most 10 minutes) whose category asks for an answer and which raises there
+            import time
+
+            t0 = time.time()
+            want_cat = {"error-must-fail": ("clash", "mgu") if case["way"] == "neq" else ("clash",),
+                        "error-must-succeed": ("clash", "mgu") if case["way"] == "neq" else ("mgu",)}.get(case["kind"])
             want = None
-            for t1, t2 in smallest_first(5):
+            tried = 0
+            for t1, t2 in smallest_first():
+                if time.time() - t0 > 600:
+                    break
                 t1, t2 = canon_pair(t1, t2)
+                if "OccursCheck" in case["site"] and not has_repeated_variable(t1, t2):
+                    continue
+                if want_cat is not None and expectation(case["way"], t1, t2)[0] not in want_cat:
+                    continue
+                tried += 1
                 j = ck.judge(case["way"], t1, t2)
-                if is_site_symptom(j["sym"]) and j["sym"].split(":", 1)[1] == case["site"]:
+                if j["sym"] == "%s:%s" % (case["kind"], case["site"]):
                     want = (t1, t2, j)
                     break
             if want is None:
-                return dict(ok=True, expected="no pair with <= 5 symbols per term raises at this site",
-                            observed="none raises")
+                return dict(ok=True, expected="no candidate pair raises at this site",
+                            observed="none of %d candidate pairs (<= 6 symbols per term) raises there" % tried)
             t1, t2, j = want
             return dict(ok=False, expected=j["expected"],
                         observed="%s %s [%s]" % (what_text(case["way"], t1, t2), j["observed"], j["sym"]))
